@@ -32,6 +32,8 @@ CHECKS = {
     "C06": R("Each RAM transformer skipped singly through the SOUFFLE_VERIF hook (pairs and all in the thorough tier): resulting RAM, "
              "initial RAM and fully optimised RAM proved equal to the least model for every database in the bound, including "
              "inequality-index shapes over all 32-bit signed/unsigned values.", "DESIGN.md#c06"),
+    "C07": R("Every permutation plan for every version of every corpus clause with 2-4 positive atoms, every SIPS heuristic, and profile-guided "
+             "auto-scheduling (-a with a profile produced by a real run): RAM of each variant proved equal to the least model.", "DESIGN.md#c07"),
     "C08": R("btree / brie / default representation variants and eqrel programs (closure defined by explicit rules in the reference) proved "
              "equal to the least model for every database in the bound; K part: eqrel lookup sentinel logic.", "DESIGN.md#c08"),
     "C02": dict(engine="K", cat="other", tech="bounded model checking (CBMC, SAT/SMT back ends) of code emitted by the real synthesiser (souffle -g) lowered through clang IR -> C, against the interpreter's kernels and bit-vector specifications",
@@ -48,6 +50,12 @@ CHECKS = {
                 text="For each numeric operator x type: interp(a,b) == synth(a,b) == spec(a,b) for all 32-bit arguments in the defined domain; every obligation "
                      "is a solver unsat with a reachable witness twin. String operators and range generators are outside; ^ only as equality of back ends.",
                 ref="DESIGN.md#c24", note=K_NOTE),
+    "C10": R("Choice-domain contract (functional, sound, maximal) decided on the final database of the emitted RAM for every input database in "
+             "the bound, three scan orders, -j1/-j8 RAM.", "DESIGN.md#c10", cat="other"),
+    "C11": R("Subsumption contract (no dominated tuple, only derivable tuples, minimal tuples for monotone-cost programs) decided on the emitted RAM "
+             "for every database in the bound.", "DESIGN.md#c11", cat="other"),
+    "C16": R("RAM of component-wrapped programs proved equal to the least model of hand-flattened twins for every database in the bound.", "DESIGN.md#c16"),
+    "C23": R("limitsize contract (subset; equal when small; at least k otherwise) decided on the emitted RAM for every database in the bound.", "DESIGN.md#c23", cat="other"),
     "C30": dict(engine="K", cat="model_checking", tech="bounded model checking (CBMC, SAT) of IR-derived C of the real lock, all interleavings of 3 clients",
                 text="Every role triple of {write, try-write, upgrade, abort, read} over the real OptimisticReadWriteLock methods is one CBMC query "
                      "over all interleavings of 3 clients (unwinding assertions on): single writer, validated reads, sound upgrades, abort "
